@@ -56,6 +56,13 @@ round()/float() around the progress formula.  New refutations: `sep.join(lines)`
 with a newline is glued onto the last line; a `.format` / `%` template that already contains a task name (name re-read as a
 format template).
 
+Round 5: section map as `defaultdict(list)` with `M[k].append(t)`; `dict(k=v)` read as a dict display (payload, links);
+link ids from `next(c)` with `c = itertools.count(k)` created once before all loops (created in a loop: refuted) and
+`for i, p in enumerate(t.predecessors)` (id = i: refuted, numbering restarts per task); f-string date specs `{t.start:%d.%m.%Y %H:%M}`
+read as strftime; a loop domain built by a helper (`xs = []; for r in roots: xs += r.all_children + [r]; return xs`) read as the
+equivalent comprehension (`builder_comprehension`); a per-task list of sources filled first and consumed by one emitting loop is
+fused into the producer sites (`Canon.fuse`).
+
 Engine limitations worked around here (helpers below, nothing under sa/ was changed): string-building normalisation (`parts`),
 inlining of multi-statement single-return helpers (`deep`), path enumeration with event counts (`paths`, DESIGN 3.7 is not in
 sa/), structural loop nesting (`loop_chains`), accumulator recognition (`Acc`), a propositional evaluator for branch conditions,
@@ -800,6 +807,7 @@ class Canon:
         self.return_expression()
         for _ in range(10):
             self.changed = False
+            self.node.body = self.fuse_block(self.node.body)
             self.lists_to_text()
             names = self.text_names()
             self.node.body = self.block(self.node.body, names)
@@ -811,6 +819,106 @@ class Canon:
         ast.fix_missing_locations(self.node)
         import dataclasses
         return dataclasses.replace(self.f0, node=self.node)
+
+    # ------------------------------------------------------------------ producer list + one consumer loop -> fused
+    def fuse_block(self, stmts: List[ast.stmt]) -> List[ast.stmt]:
+        """xs = [a] / xs = []; xs.append(b) ...; for x in xs: BODY   ->   x = a; BODY / x = b; BODY   (BODY only emits text)
+
+        valid when xs is used by nothing else, is (re)created exactly once on every path to the consumer loop before anything
+        is appended, and BODY consists of `acc += ..` / plain local assignments, so running it at the producer sites keeps
+        the order of the emitted text"""
+        for st in stmts:
+            if isinstance(st, (ast.FunctionDef, ast.AsyncFunctionDef, ast.ClassDef)):
+                continue
+            for fld in ('body', 'orelse', 'finalbody'):
+                b = getattr(st, fld, None)
+                if isinstance(b, list) and b and isinstance(b[0], ast.stmt):
+                    setattr(st, fld, self.fuse_block(b))
+        for i, c in enumerate(stmts):
+            if not (isinstance(c, ast.For) and not c.orelse and isinstance(c.iter, ast.Name) and isinstance(c.target, ast.Name)) or \
+                    id(c) in self.dead:
+                continue
+            new = self.fuse(stmts[:i], c)
+            if new is None:
+                self.dead.add(id(c))
+                continue
+            self.changed = True
+            return self.fuse_block(new + stmts[i + 1:])
+        return stmts
+
+    def fuse(self, before: List[ast.stmt], c: ast.For) -> Optional[List[ast.stmt]]:
+        xs, x = c.iter.id, c.target.id
+        for b in c.body:
+            if not ((isinstance(b, ast.AugAssign) and isinstance(b.target, ast.Name)) or
+                    (isinstance(b, ast.Assign) and len(b.targets) == 1 and isinstance(b.targets[0], ast.Name))):
+                return None
+            tgt = b.target.id if isinstance(b, ast.AugAssign) else b.targets[0].id
+            if tgt in (xs, x):
+                return None
+        if any(isinstance(n, ast.Name) and n.id == xs for b in c.body for n in ast.walk(b)):
+            return None
+        inits, apps, ok = {}, {}, {id(c.iter)}
+        for st in before:
+            for n in walk_no_nested(st):
+                if isinstance(n, ast.Assign) and len(n.targets) == 1 and isinstance(n.targets[0], ast.Name) and n.targets[0].id == xs:
+                    v = n.value
+                    if match("list()", v):
+                        v = ast.List(elts=[], ctx=ast.Load())
+                    if not isinstance(v, ast.List) or any(isinstance(e, ast.Starred) for e in v.elts):
+                        return None
+                    inits[id(n)] = list(v.elts)
+                    ok.add(id(n.targets[0]))
+                elif isinstance(n, ast.Expr) and isinstance(n.value, ast.Call) and match(f"{xs}.append($v)", n.value):
+                    apps[id(n)] = n.value.args[0]
+                    ok.add(id(n.value.func.value))
+        if not inits:
+            return None
+        if any(isinstance(n, ast.Name) and n.id == xs and id(n) not in ok for n in walk_no_nested(self.node, include_lambdas=True)):
+            return None
+        # x must not be needed after the loop / by the producers
+        if any(isinstance(n, ast.Name) and n.id == x and not any(n is y for b in c.body for y in ast.walk(b)) and n is not c.target
+               for n in walk_no_nested(self.node, include_lambdas=True)):
+            return None
+        # the list is created outside inner loops of `before`, exactly once on every path, before anything is appended
+        chains = loop_chains(ast.Module(body=before, type_ignores=[]))
+        if any(chains.get(k) for k in inits):
+            return None
+        atoms = {k: 'init' for k in inits}
+        atoms.update({k: 'app' for k in apps})
+        try:
+            ps = paths(before, atoms)
+        except TooManyPaths:
+            return None
+        for p_ in ps:
+            if p_.exit == 'raise':
+                continue
+            if p_.exit != 'fall':
+                return None
+            ev = [l for l, _ in p_.events]
+            if ev.count('init') != 1 or ev[0] != 'init' or 'opaque' in ev:
+                return None
+
+        def body_for(e, at):
+            return [ast.copy_location(ast.Assign(targets=[_name(x, True)], value=e), at)] + copy.deepcopy(c.body)
+
+        def rec(body):
+            out = []
+            for st in body:
+                if id(st) in inits:
+                    new = [y for e in inits[id(st)] for y in body_for(e, st)]
+                    out.extend(new or [ast.copy_location(ast.Pass(), st)])
+                    continue
+                if id(st) in apps:
+                    out.extend(body_for(apps[id(st)], st))
+                    continue
+                if not isinstance(st, (ast.FunctionDef, ast.AsyncFunctionDef, ast.ClassDef)):
+                    for fld in ('body', 'orelse', 'finalbody'):
+                        b = getattr(st, fld, None)
+                        if isinstance(b, list) and b and isinstance(b[0], ast.stmt):
+                            setattr(st, fld, rec(b))
+                out.append(st)
+            return out
+        return rec(before)
 
     def return_expression(self):
         rets = [n for n in walk_no_nested(self.node) if isinstance(n, ast.Return)]
@@ -1297,11 +1405,82 @@ def domain_problem(ctx, f: Func, w: str, it: ast.AST) -> Optional[str]:
         return f"`{src(it)[:70]}` filters the tasks of self.{w}: some tasks are skipped"
     if isinstance(it, ast.Subscript) and is_all_tasks(it.value, f, w):
         return f"`{src(it)[:70]}` is a slice / element of self.{w}.tasks, not every task"
+    if isinstance(it, (ast.ListComp, ast.GeneratorExp)) and len(it.generators) == 2 and isinstance(it.generators[0].target, ast.Name) and \
+            match(f"{f.self_name}.{w}.roots", strip_seq(it.generators[0].iter)) and isinstance(it.elt, ast.Name) and \
+            isinstance(it.generators[1].target, ast.Name) and it.elt.id == it.generators[1].target.id:
+        r = it.generators[0].target.id
+        inner = strip_seq(it.generators[1].iter)
+        if match(f"{r}.all_children", inner):
+            return f"`{src(it)[:70]}` lists the descendants of every root but not the root itself: root tasks are missing"
+        if match(f"{r}.children", inner) or match(f"{r}.children + [{r}]", inner) or match(f"[{r}] + {r}.children", inner):
+            return f"`{src(it)[:70]}` visits only the direct children of the roots: deeper tasks are missing"
+        if match(f"[{r}]", inner):
+            return f"`{src(it)[:70]}` visits only the roots"
     return None
 
 
+def builder_comprehension(ctx, f: Func, call: ast.AST) -> Optional[ast.AST]:
+    """`self.h(..)` where h is `xs = []; for a in A: [if c:] xs += B | xs.extend(B) | xs.append(e); return xs`, read as the
+    comprehension `[y for a in A if c for y in B]` / `[e for a in A if c]` over the call's arguments"""
+    if not isinstance(call, ast.Call):
+        return None
+    h = helper_of(ctx, f, call)
+    if h is None or h == f or not isinstance(h.node, ast.FunctionDef):
+        return None
+    body = [st for st in h.body if not (isinstance(st, ast.Expr) and isinstance(st.value, ast.Constant))]
+    if len(body) != 3 or not (isinstance(body[0], (ast.Assign, ast.AnnAssign)) and isinstance(body[1], ast.For) and
+                              isinstance(body[2], ast.Return) and isinstance(body[2].value, ast.Name)):
+        return None
+    xs = body[2].value.id
+    tg = body[0].targets[0] if isinstance(body[0], ast.Assign) and len(body[0].targets) == 1 else getattr(body[0], 'target', None)
+    if not (isinstance(tg, ast.Name) and tg.id == xs and body[0].value is not None and
+            (match("[]", body[0].value) or match("list()", body[0].value))):
+        return None
+    gens, st = [], body[1]
+    while True:
+        if isinstance(st, ast.For) and not st.orelse and len(st.body) == 1:
+            gens.append(ast.comprehension(target=st.target, iter=st.iter, ifs=[], is_async=0))
+            st = st.body[0]
+        elif isinstance(st, ast.If) and not st.orelse and len(st.body) == 1 and gens:
+            gens[-1].ifs.append(st.test)
+            st = st.body[0]
+        else:
+            break
+    if not gens:
+        return None
+    elt = None
+    m = match(f"{xs}.append($e)", st.value) if isinstance(st, ast.Expr) else None
+    if m:
+        elt = m['e']
+    else:
+        more = None
+        if isinstance(st, ast.Expr):
+            m = match(f"{xs}.extend($b)", st.value)
+            more = m['b'] if m else None
+        elif isinstance(st, ast.AugAssign) and isinstance(st.op, ast.Add) and isinstance(st.target, ast.Name) and st.target.id == xs:
+            more = st.value
+        elif isinstance(st, ast.Assign) and match(f"{xs} = {xs} + $b", st):
+            more = match(f"{xs} = {xs} + $b", st)['b']
+        if more is None:
+            return None
+        gens.append(ast.comprehension(target=_name('_each', True), iter=more, ifs=[], is_async=0))
+        elt = _name('_each')
+    comp = ast.ListComp(elt=elt, generators=gens)
+    if any(isinstance(n, ast.Name) and n.id == xs for n in ast.walk(comp)):
+        return None
+    sub = _bind(h, call)
+    if sub is None:
+        return None
+    bound = {x.id for g in gens for x in ast.walk(g.target) if isinstance(x, ast.Name)}
+    if bound & set(sub):
+        return None
+    return ast.fix_missing_locations(ast.copy_location(subst(comp, sub), call))
+
+
 def for_iter(ctx, f: Func, loop: ast.For) -> ast.AST:
-    return deep(ctx, f, loop.iter, flow_of(f).node_of_expr(loop.iter))
+    e = deep(ctx, f, loop.iter, flow_of(f).node_of_expr(loop.iter))
+    comp = builder_comprehension(ctx, f, strip_seq(e))
+    return comp if comp is not None else e
 
 
 # ------------------------------------------------------------------------------------------------------- templates
